@@ -29,6 +29,7 @@ agent() {
             case $a-$k in
                 V-1|V-4|W-3|B7-4|F8-3) python3 $T $d $wt --release ;;
                 V-2) python3 $T $d $wt --release --config profile.release.debug-assertions=true ;;
+                I9-4|J9-3) python3 $T $d $wt --features p384,p521 ;;
                 Y-4) RUSTFLAGS="--cfg fuzzing" python3 $T $d $wt ;;
                 *) python3 $T $d $wt ;;
             esac
